@@ -330,7 +330,8 @@ func init() {
 				ids := gateGrid(ctx.Quick)
 				ids = append(ids, ref.ReadCommon(getInst("A_testdata").Files.Common).GateIDs...)
 				// documented formats in the repository's gate files
-				ids = append(ids, "ArithmeticGate { num_ops: 10 }", "ConstantGate { num_consts: 2 }", "BaseSumGate { num_limbs: 32 } + Base: 2", "ReducingGate { num_coeffs: 33 }", "ReducingExtensionGate { num_coeffs: 33 }", "MulExtensionGate { num_ops: 13 }", "RandomAccessGate { bits: 2, num_copies: 13, num_extra_constants: 2, "+ph+" }<D=2>", "ExponentiationGate { num_power_bits: 67, "+ph+" }<D=2>")
+				ids = append(ids, "ArithmeticGate { num_ops: 10 }", "ConstantGate { num_consts: 2 }", "BaseSumGate { num_limbs: 32 } + Base: 2", "ReducingGate { num_coeffs: 33 }", "ReducingExtensionGate { num_coeffs: 33 }", "MulExtensionGate { num_ops: 13 }", "RandomAccessGate { bits: 2, num_copies: 13, num_extra_constants: 2, "+ph+" }<D=2>", "ExponentiationGate { num_power_bits: 67, "+ph+" }<D=2>",
+					gateID("CosetInterpolation", 7, 4), gateID("CosetInterpolation", 6, 2))
 				seen := map[string]bool{}
 				for _, id := range append(ids, unsupportedIDs()...) {
 					if seen[id] {
